@@ -406,6 +406,25 @@ fn c05_row_lookup_big_id() { row_lookup(0, 0x8000_0001, 0x8000_0001); }
 #[kani::unwind(18)]
 fn c05_row_lookup_unsorted_index() { row_lookup(10, 3, 3); }
 
+/// language ids as stored in sheet headers and the file-name suffix each one implies
+/// (0 none, 1 ja, 2 en, 3 de, 4 fr, 5 chs, 6 cht, 7 ko)
+#[kani::proof]
+#[kani::unwind(10)]
+fn c05_language_ids_and_codes() {
+    let want: [&[u8]; 8] = [b"", b"ja", b"en", b"de", b"fr", b"chs", b"cht", b"ko"];
+    let mut id = 0u8;
+    while id < 8 {
+        let raw = [id];
+        let mut c = Cursor::new(&raw[..]);
+        let lang = Language::read_le(&mut c).unwrap();
+        assert_eq!(lang as u8, id);
+        assert!(crate::common::get_language_code(&lang).as_bytes() == want[id as usize]);
+        id += 1;
+    }
+    let x: u8 = kani::any();
+    kani::cover!(x == 0);
+}
+
 #[kani::proof]
 #[kani::unwind(18)]
 fn c05_pipeline_witness() {
